@@ -205,7 +205,63 @@ def one(m, scale, amap, override=None):
         shutil.rmtree(out, ignore_errors=True)
 
 
+DISPOSITION = [  # (regex on "file:line func was->rep", why a surviving mutant is not a blind spot)
+    (r"marshall_(target|cscd)_descriptor_parameters", "branches of descriptor types the library does not implement (they `pass` and end in NotImplementedError, which the properties exclude)"),
+    (r"readcd\.py:(9[5-9]|1[0-5][0-9]):", "READ CD selection-bit normalisation for (sector type, selection) pairs outside the unambiguous MMC-6 combinations the model generates (C04 assumption)"),
+    (r"readcd\.py:.*kwargs|readcd\.py:(95|96|239|242|247|252):", "default of an optional decode selector: equal to passing 0"),
+    (r"scsi\.py:\d+:\d+:const\+1 __init_opcode", "device types 02h/09h -> ssc and 03h -> spc: the property only demands the primary commands for these types, which every set offers"),
+    (r"atapassthrough1[26]\.py:10[3-9]|atapassthrough1[26]\.py:11[0-2]", "T_LENGTH = 0 branch: the transfer length is 0, so the block size chosen there never matters"),
+    (r"SCSICommand.__init__\(self, opcode, 0, 0\)|__init__: '0' -> '1'", "placeholder data-out length that is replaced by the composed parameter list (the data-in length at the same call is checked by C03)"),
+    (r"header_target_descriptor_list_length|'0x20' -> '0x21'", "dictionary key that no layout table contains (ignored by the encoder)"),
+    (r"\[:\d+\]|\[\d+ ?: ?\d+\]|slice", "slice end beyond what the field decoder reads / beyond the value's length"),
+    (r"scsi_command\.py:62:", "unreachable duplicate branch of init_cdb (00h-1Fh is handled first)"),
+    (r"scsi_command\.py:23[2-7]:", "length fallback for dictionaries without opcode: the byte count of every mask in the library is unchanged by the mutant"),
+    (r"print_data|__str__|show_data", "text output only (the properties demand printability and the T10 text, both still given)"),
+    (r"report_priority\.py:.*marshall_datain", "REPORT PRIORITY parameter data is only decoded by the properties (C04); its builder is not in C06's list"),
+]
+
+
+def report():
+    path = os.path.join(VERIF, "sensitivity", "ast_mutants.json")
+    rows = json.load(open(path))
+    by = {}
+    for r in rows:
+        by[r["status"]] = by.get(r["status"], 0) + 1
+    killed_by = {}
+    for r in rows:
+        if r["status"] == "killed":
+            k = next(p for p, c in r["checks"].items() if c["exit"] == 1)
+            killed_by[k] = killed_by.get(k, 0) + 1
+    out = ["# AST mutation sweep", "",
+           "`python3 tools/ast_mutation.py --per-function 0`: every integer constant (+1), comparison, `+`/`-`, `<<`/`>>`,",
+           "`*`/`//`, `and`/`or` and non-comparison condition inside the library's functions, one mutant each.", "",
+           "* mutants: %d" % len(rows),
+           "* caught by the repository's own tests (or hanging them): %d" % (by.get("repo_tests", 0) + by.get("timeout", 0)),
+           "* passing the repository's tests and reported by a check: %d (%s)" % (
+               by.get("killed", 0), ", ".join("%s %d" % kv for kv in sorted(killed_by.items()))),
+           "* passing both: %d, listed below with the reason" % by.get("survived", 0), "",
+           "| mutant | function | change | disposition |", "|---|---|---|---|"]
+    unexplained = 0
+    src_cache = {}
+    for r in rows:
+        if r["status"] != "survived":
+            continue
+        src = src_cache.setdefault(r["file"], open(os.path.join(REPO, r["file"])).read().splitlines())
+        line = src[r["line"] - 1].strip() if r["line"] - 1 < len(src) else ""
+        ident = "%s %s %s '%s' -> '%s' %s" % (r["id"], r["func"], r["func"], r["was"], r["rep"], line)
+        why = next((w for rx, w in DISPOSITION if re.search(rx, ident)), None)
+        if why is None:
+            unexplained += 1
+            why = "**UNEXPLAINED**"
+        out.append("| %s:%d | %s | `%s` -> `%s` in `%s` | %s |" % (r["file"].rsplit("/", 1)[-1], r["line"], r["func"], r["was"][:30],
+                                                            r["rep"][:30], line[:70].replace("|", "\\|"), why))
+    open(os.path.join(VERIF, "sensitivity", "AST.md"), "w").write("\n".join(out) + "\n")
+    print(by, "unexplained:", unexplained)
+
+
 def main():
+    if "--report" in sys.argv:
+        return report()
     ap = argparse.ArgumentParser()
     ap.add_argument("--jobs", type=int, default=6)
     ap.add_argument("--scale", type=float, default=0.15)
